@@ -219,3 +219,59 @@ def c06_merkle_root_recomputed(ctx, v):
 
 def _same32(a, b):
     return z3.And(*[z3.Select(a.arr, z3.BitVecVal(i, 64)) == z3.Select(b.arr, z3.BitVecVal(i, 64)) for i in range(32)])
+
+
+def c06_signed_header_covers_commitment(ctx, v):
+    """Block::serialize_for_signature — the bytes the creator signs, which Block::validate verifies
+    and from which the hash is derived (hash = H(previous_block_hash ‖ pre_hash), pre_hash =
+    H(these bytes)) — determine the fields that bind content and creator: for two arbitrary blocks
+    whose signing serialisations are equal byte for byte, merkle_root (the transaction
+    commitment), previous_block_hash, creator, id and timestamp are equal.  A field left out of the
+    signed bytes could be re-stated by a third party under the same signature and the same hash.
+    Decided for every value of every header field; independent of the order of the fields."""
+    from .models import value_eq
+    body = ctx.body(r"block::<impl at [^>]*>::serialize_for_signature$")
+    ex = ctx.executor(loop_bound=40, inline="auto", max_paths=2000)
+    fields = ("merkle_root", "previous_block_hash", "creator", "id", "timestamp")
+    blocks, wires = [], []
+    for tag in ("a", "b"):
+        b = ctx.mk_struct(ex, "Block", "block_" + tag)
+        outs = ex.run(body, [S.Ref(S.Cell(b))], S.State())
+        v.paths += len(outs)
+        rets = []
+        for o in outs:
+            if o.kind in ("unsupported", "unwound", "path-limit"):
+                return v.undecided("%s %s" % (o.kind, o.info))
+            if o.kind == "panic":
+                L.report_panic(v, ex, o, "serialize_for_signature panics: %s" % o.info)
+            if o.kind == "return":
+                rets.append(o)
+        if len(rets) != 1 or not isinstance(rets[0].value, S.Bytes):
+            return v.undecided("serialize_for_signature: %d returning paths / result is not a byte string" % len(rets))
+        blocks.append(b)
+        wires.append(rets[0])
+    wa, wb = wires[0].value, wires[1].value
+    la = z3.simplify(wa.len.bv)
+    if not z3.is_bv_value(la):
+        return v.undecided("length of the signing serialisation is not a constant")
+    n = la.as_long()
+    v.notes.append("signing serialisation is %d bytes" % n)
+    same = [wa.len.bv == wb.len.bv] + [z3.Select(wa.arr, z3.BitVecVal(i, 64)) == z3.Select(wb.arr, z3.BitVecVal(i, 64)) for i in range(n)]
+    pc = list(wires[0].pc) + list(wires[1].pc) + same
+    r, _m = ex.model_for(pc)
+    v.queries += 1
+    v.covers_total += 1
+    if r == z3.sat:
+        v.covers_sat += 1
+    for f in fields:
+        fa, fb = (b.fields[ctx.field_index("Block", f)] for b in blocks)
+        r, m = ex.model_for(pc, z3.Not(value_eq(ex, fa, fb)))
+        v.queries += 1
+        if r == z3.sat:
+            v.sat += 1
+            v.fail("two blocks with identical signing bytes (hence the same signature validity and the same hash for the same parent) differ in %s: the signed header does not cover it" % f,
+                   dict(field=f, signing_bytes=n))
+        elif r == z3.unsat:
+            v.unsat += 1
+        else:
+            return v.undecided("solver %s on field %s" % (r, f))
